@@ -321,6 +321,14 @@ def _merge(ancestor, our, their, allowed=None):
         )
     unmergeable = list(diff(patch_ours_first, patch_theirs_first))
     if unmergeable:
+        # Collect the conflicting keys by replaying the diff on an empty dict. A key
+        # that is present only when our diff is applied first (we removed an entry
+        # that they changed) shows up as "remove", which cannot be replayed on an
+        # empty dict (KeyError), so replay it as "add" - same (key, value) payload.
+        unmergeable = [
+            ("add" if typ == "remove" else typ, node, changes)
+            for typ, node, changes in unmergeable
+        ]
         unmergeable_paths = []
         for paths in patch(unmergeable, {}):
             unmergeable_paths.append(posixpath.join(*paths))
